@@ -161,7 +161,7 @@ def c11_no_partial_convert (t : Tr) : Bool :=
         (match Coinswap.lookupD t.pre.pairs p.denom with
          | some pair =>
            gain t m p.denom == t.resp.convAmt && loss t m p.denom == 0 &&
-           (tokKeys t.pre t.post).all (fun k =>
+           ((pair.contract, r) :: tokKeys t.pre t.post).all (fun k =>
              t.post.tok.get k == t.pre.tok.get k + (if k == (pair.contract, r) then t.resp.convAmt else 0))
          | none => false)
       else
